@@ -36,6 +36,7 @@ func init() {
 type flagDef struct {
 	name, short, kind       string // kind: b c s l o
 	persistent, hidden, dep bool
+	excl, shdep             bool // member of the command's mutually exclusive group; shorthand deprecated
 }
 type cmdDef struct {
 	name         string
@@ -62,6 +63,12 @@ func (c *cmdDef) tokens() []string {
 		if f.dep {
 			attrs += "D"
 		}
+		if f.excl {
+			attrs += "X"
+		}
+		if f.shdep {
+			attrs += "S"
+		}
 		t = append(t, f.name, f.short, f.kind, attrs)
 	}
 	a := ""
@@ -87,7 +94,7 @@ func parseCmd(t []string) (*cmdDef, []string) {
 	nf := atoi(t[0])
 	t = t[1:]
 	for i := 0; i < nf; i++ {
-		c.flags = append(c.flags, flagDef{t[0], t[1], t[2], strings.Contains(t[3], "P"), strings.Contains(t[3], "H"), strings.Contains(t[3], "D")})
+		c.flags = append(c.flags, flagDef{t[0], t[1], t[2], strings.Contains(t[3], "P"), strings.Contains(t[3], "H"), strings.Contains(t[3], "D"), strings.Contains(t[3], "X"), strings.Contains(t[3], "S")})
 		t = t[4:]
 	}
 	c.interspersed, c.hidden, c.dep = strings.Contains(t[0], "I"), strings.Contains(t[0], "H"), strings.Contains(t[0], "D")
@@ -107,6 +114,8 @@ type runRecord struct {
 	args    []string
 	dash    int
 	ran     bool
+	failed  bool // Execute returned an error
+	errText string
 }
 
 // build the cobra tree; with complete=true the marker completions are registered
@@ -150,9 +159,15 @@ func buildCobra(c *cmdDef, path string, complete bool, rec *runRecord) *cobra.Co
 		if f.dep {
 			fs.MarkDeprecated(f.name, "deprecated")
 		}
+		if f.shdep && f.short != "" {
+			fs.MarkShorthandDeprecated(f.name, "use the long form")
+		}
 		if f.kind == "s" || f.kind == "l" || f.kind == "o" || f.kind == "c" {
 			actions[f.name] = carapace.ActionValues("F:" + p + ":" + f.name)
 		}
+	}
+	if ex := c.exclusive(); len(ex) >= 2 {
+		cmd.MarkFlagsMutuallyExclusive(ex...)
 	}
 	cmd.Flags().SetInterspersed(c.interspersed)
 	for _, s := range c.subs {
@@ -234,7 +249,7 @@ func genCmd(r *Rng, depth int, name string) *cmdDef {
 			shorts[sh] = true
 		}
 		kind := map[string]string{"str": "s", "bool": "b", "count": "c", "list": "l", "opt": "o", "verbose": "b", "name": "s", "all": "b"}[n]
-		c.flags = append(c.flags, flagDef{n, sh, kind, depth < 2 && r.Chance(1, 4), r.Chance(1, 10), r.Chance(1, 12)})
+		c.flags = append(c.flags, flagDef{n, sh, kind, depth < 2 && r.Chance(1, 4), r.Chance(1, 10), r.Chance(1, 12), r.Chance(1, 3), sh != "" && r.Chance(1, 10)})
 	}
 	if depth < 2 {
 		ns := r.Intn(3)
@@ -251,6 +266,17 @@ func genCmd(r *Rng, depth int, name string) *cmdDef {
 		}
 	}
 	return c
+}
+
+// the names of the command's mutually exclusive group
+func (c *cmdDef) exclusive() []string {
+	var ex []string
+	for _, f := range c.flags {
+		if f.excl {
+			ex = append(ex, f.name)
+		}
+	}
+	return ex
 }
 
 func (c *cmdDef) allFlags(inherited []flagDef) []flagDef {
